@@ -1,86 +1,104 @@
 /-
   C18 — pull decoders deliver one top-level value per Next and then io.EOF.
 
-  Proved: the CBOR byte-slice decoder (`NewBytesDecoder`) on every stream of supported
-  items, and the single-value step for any decoder whose buffer starts with a complete item
-  (whatever follows).  Reader-driven decoders with arbitrary read sizes, UBJSON and JSON:
-  mirror + correspondence + oracle.
+  Proved IN FULL for the CBOR decoder mirror (SF/Cbor/Dec.lean), byte-slice and reader-driven:
+    * `reader_decoder_stream`: for every stream of k supported items and EVERY way of splitting
+      its bytes into reads (any read sizes, `(0, nil)` reads anywhere, data arriving with the
+      end of the script), k calls to Next succeed — the i-th having delivered exactly the
+      events of the first i items — and the (k+1)-th reports a clean EOF; no call runs out of
+      fuel (the loop of `Next` terminates);
+    * `reader_decoder_truncated(_one)`: if the bytes end in the middle of an item, the call
+      after the complete items returns `unexpectedEOF` — never a clean EOF, never ok;
+    * `reader_chunking_independent`, `reader_eq_bytes_decoder`: for ARBITRARY bytes (valid or
+      not) the sequence of results and events does not depend on the read sizes and equals
+      that of the byte-slice decoder on the concatenation; `reader_never_outOfFuel`;
+    * the byte-slice forms `next_one`, `bytes_decoder_stream`, `eof_not_clean`.
+  Proofs: SF/Proofs/CborDec{Bytes,Until,Next,ReaderTop}.lean, on top of the chunk-independence
+  (C02) and termination / truncation (C03) developments.  UBJSON and JSON decoders: mirror +
+  correspondence (read scripts, buffer sizes 1…4096) + oracle.
 -/
-import SF.Cbor.Dec
-import SF.Props.C05
+import SF.Proofs.CborDecReaderTop
 namespace SF.Props.C18
-open SF SF.Cbor SF.Cbor.Cst SF.Cbor.Parse SF.Cbor.Dec
+open SF SF.Cbor SF.Cbor.Cst SF.Cbor.Parse SF.Cbor.Dec SF.Cbor.DecR
 
 /-- one Next on a buffer that starts with a complete supported item: it succeeds, delivers
 exactly that item's events and none of what follows, and keeps the remainder -/
 theorem next_one (t : Item) (ht : t.ok = true) (rest : Bytes) (evs : List Ev) (d : Dec)
     (hp : d.p = idle evs) (hb : d.buffer = t.wire ++ rest) (fuel : Nat) :
-    next (fuel + 1) d = ({ d with p := idle (t.events.reverse ++ evs), buffer := rest }, .ok) := by
-  have hne : ¬ ((t.wire ++ rest).length == 0) = true := by
-    have := wire_ne_nil t ht
-    cases h : t.wire ++ rest <;> simp_all
-  simp only [next, hb, hne, if_false, hp]
-  rw [feedUntil_item t ht evs rest _ (fuelFor_ge t rest)]
-  simp
-
-/-- repeated calls to Next; per call: the result and the events delivered during the call -/
-def runNexts : Nat → Dec → List (NextRes × List Ev)
-  | 0, _ => []
-  | n + 1, d =>
-    let d0 := { d with p := { d.p with evs := [] } }
-    let r := next (nextFuel d0) d0
-    (r.2, Parse.events r.1.p) :: (if r.2 == .ok then runNexts n r.1 else [])
+    next (fuel + 1) d = ({ d with p := idle (t.events.reverse ++ evs), buffer := rest }, .ok) :=
+  SF.Cbor.DecBytes.next_one t ht rest evs d hp hb fuel
 
 /-- C18 for the CBOR byte-slice decoder: for EVERY stream of k supported items, k calls to
 Next succeed, the i-th delivering exactly the events of the i-th item and nothing of the
 following one, and the (k+1)-th call reports io.EOF -/
 theorem bytes_decoder_stream (ts : List Item) (h : okList ts = true) :
     ∀ (d : Dec) (evs : List Ev), d.hasReader = false → d.p = idle evs → d.buffer = wireList ts →
-      runNexts (ts.length + 1) d = ts.map (fun t => (NextRes.ok, t.events)) ++ [(NextRes.eof, [])] := by
-  have hfuel : ∀ d' : Dec, ∃ g, nextFuel d' = g + 1 := by
-    intro d'; exact ⟨nextFuel d' - 1, by simp [nextFuel]⟩
-  induction ts with
-  | nil =>
-    intro d evs hr hp hb
-    simp only [wireList] at hb
-    rw [show ([] : List Item).length + 1 = 0 + 1 from rfl, runNexts]
-    obtain ⟨g, hg⟩ := hfuel { d with p := { d.p with evs := [] } }
-    simp only [hg, List.map_nil, List.nil_append]
-    simp +decide [next, hb, hr, eof, hp, finalize, idle, Parse.events, runNexts]
-  | cons t ts ih =>
-    intro d evs hr hp hb
-    simp only [okList, Bool.and_eq_true] at h
-    simp only [wireList] at hb
-    rw [show (t :: ts).length + 1 = (ts.length + 1) + 1 from rfl, runNexts]
-    obtain ⟨g, hg⟩ := hfuel { d with p := { d.p with evs := [] } }
-    simp only [hg]
-    rw [next_one t h.1 (wireList ts) [] _ (by simp [hp, idle]) (by simpa using hb)]
-    simp only [List.append_nil, Parse.events, idle, List.reverse_reverse, beq_self_eq_true, if_true,
-      List.map_cons, List.cons_append]
-    rw [ih h.2 _ t.events.reverse (by simpa using hr) rfl rfl]
+      SF.Cbor.DecBytes.runNexts (ts.length + 1) d = ts.map (fun t => (NextRes.ok, t.events)) ++ [(NextRes.eof, [])] :=
+  SF.Cbor.DecBytes.bytes_decoder_stream ts h
 
-/-- a stream that ends inside a value: the decoder's end-of-input check reports an error
-distinct from a clean end whenever the parser is not idle -/
-theorem eof_not_clean (d : Dec) (h : finalize d.p ≠ none) : eof d = .unexpectedEOF := by
-  unfold eof
-  cases hf : finalize d.p with
-  | none => exact absurd hf h
-  | some e => rfl
+/-- the end of the input inside a value is never a clean EOF -/
+theorem eof_not_clean (d : Dec) (h : finalize d.p ≠ none) : eof d = .unexpectedEOF :=
+  SF.Cbor.DecBytes.eof_not_clean d h
 
-/-- non-vacuity: two items then end of stream; and a truncated item -/
+/-- C18 for the READER-DRIVEN decoder: every stream of supported items, EVERY split into reads
+(`cs.flatten = wireList ts`; empty reads allowed anywhere), any sufficient fuel `f`: the trace of
+`ts.length + 1` calls is ok × k with exactly the events of the first i items after call i, then
+a clean EOF.  The trace does not mention `cs`. -/
+theorem reader_decoder_stream (f : Dec → Nat) (hf : Enough f) (ts : List Item) (h : okList ts = true)
+    (cs : List Bytes) (hcs : cs.flatten = wireList ts) :
+    nextsF f (ts.length + 1) { reads := cs } =
+      (List.range ts.length).map (fun i => (NextRes.ok, eventsList (ts.take (i + 1)))) ++
+        [(NextRes.eof, eventsList ts)] :=
+  SF.Cbor.DecR.reader_decoder_stream f hf ts h cs hcs
+
+/-- the fuel the model hands out is sufficient everywhere -/
+theorem enough_nextFuel : Enough nextFuel := SF.Cbor.DecR.enough_nextFuel
+
+/-- TRUNCATION: items `ts` followed by a proper non-empty prefix of one more item, in any
+split into reads: after the complete items the next call returns `unexpectedEOF` -/
+theorem reader_decoder_truncated (f : Dec → Nat) (hf : Enough f) (ts : List Item) (h : okList ts = true)
+    (t : Item) (ht : t.ok = true) (k : Nat) (hk0 : 0 < k) (hk : k < t.wire.length)
+    (cs : List Bytes) (hcs : cs.flatten = wireList ts ++ t.wire.take k) :
+    nextsF f (ts.length + 1) { reads := cs } =
+      (List.range ts.length).map (fun i => (NextRes.ok, eventsList (ts.take (i + 1)))) ++
+        [(NextRes.unexpectedEOF,
+          Parse.events (feedUntil (fuelFor (t.wire.take k)) (idle (eventsList ts).reverse) (t.wire.take k)).p)] :=
+  SF.Cbor.DecR.reader_decoder_truncated f hf ts h t ht k hk0 hk cs hcs
+
+/-- … as a statement about one call -/
+theorem reader_decoder_truncated_one (t : Item) (ht : t.ok = true) (k : Nat) (hk0 : 0 < k)
+    (hk : k < t.wire.length) (cs : List Bytes) (hcs : cs.flatten = t.wire.take k) (fuel : Nat)
+    (hf : cs.length + 1 ≤ fuel) :
+    (next fuel { reads := cs }).2 = .unexpectedEOF :=
+  SF.Cbor.DecR.reader_decoder_truncated_one t ht k hk0 hk cs hcs fuel hf
+
+/-- ARBITRARY BYTES: any two read scripts with the same concatenation give the same sequence
+of results and the same accumulated events, call by call, up to and including the first
+non-ok result -/
+theorem reader_chunking_independent (f : Dec → Nat) (hf : Enough f) (cs₁ cs₂ : List Bytes)
+    (h : cs₁.flatten = cs₂.flatten) (n : Nat) :
+    nextsF f n { reads := cs₁ } = nextsF f n { reads := cs₂ } :=
+  SF.Cbor.DecR.reader_chunking_independent f hf cs₁ cs₂ h n
+
+/-- … and it is the sequence the byte-slice decoder produces on the concatenation -/
+theorem reader_eq_bytes_decoder (f : Dec → Nat) (hf : Enough f) (cs : List Bytes) (n : Nat) :
+    nextsF f n { reads := cs } = nextsF f n { hasReader := false, buffer := cs.flatten } :=
+  SF.Cbor.DecR.reader_eq_bytes_decoder f hf cs n
+
+/-- `Decoder.Next` terminates on ANY bytes in ANY split into reads -/
+theorem reader_never_outOfFuel (cs : List Bytes) (n : Nat) :
+    ∀ x ∈ nexts n { reads := cs }, x.1 ≠ .err .outOfFuel :=
+  SF.Cbor.DecR.reader_never_outOfFuel cs n
+
+/-- non-vacuity: `[1, 2]` then `1`, cut after the array head, with a `(0, nil)` read; and a
+truncated stream -/
 example :
-    let d0 : Dec := { hasReader := false, buffer := [0x82, 0x01, 0x38, 0xc7, 0x61, 0x61] }
-    let r1 := next (nextFuel d0) d0
-    let r2 := next (nextFuel r1.1) r1.1
-    let r3 := next (nextFuel r2.1) r2.1
-    r1.2 = .ok ∧ r2.2 = .ok ∧ r3.2 = .eof ∧
-      Parse.events r1.1.p = [.arrStart 2 BT.any, .num .u8 1, .num .i16 (-200), .arrEnd] := by
-  decide +kernel
-
-example :
-    let d0 : Dec := { hasReader := false, buffer := [0x82, 0x01] }
-    let r1 := next (nextFuel d0) d0
-    r1.2 = .unexpectedEOF := by
+    nexts 3 { reads := [[0x82], [], [0x01, 0x02, 0x01]] } =
+      [(.ok, [.arrStart 2 BT.any, .num .u8 1, .num .u8 2, .arrEnd]),
+       (.ok, [.arrStart 2 BT.any, .num .u8 1, .num .u8 2, .arrEnd, .num .u8 1]),
+       (.eof, [.arrStart 2 BT.any, .num .u8 1, .num .u8 2, .arrEnd, .num .u8 1])] ∧
+    nexts 2 { reads := [[0x01, 0x82], [], [0x01, 0x62], [0x61]] } =
+      [(.ok, [.num .u8 1]), (.unexpectedEOF, [.num .u8 1, .arrStart 2 BT.any, .num .u8 1])] := by
   decide +kernel
 
 end SF.Props.C18
